@@ -10,6 +10,7 @@ mod c04;
 mod pos;
 mod c17;
 mod c01;
+mod c03;
 
 use util::*;
 
@@ -39,6 +40,8 @@ fn main() {
     "C17" => c17::run(&mut out, &mut rng, thorough),
     "C01" => c01::run_c01(&mut out, &mut rng, thorough),
     "C02" => c01::run_c02(&mut out, &mut rng, thorough),
+    "C03" => c03::run_c03(&mut out, &mut rng, thorough),
+    "C19" => c03::run_c19(&mut out, &mut rng, thorough),
     "C08" => c07::run_c08(&mut out, &mut rng, thorough),
     _ => { eprintln!("unknown property {}", prop); std::process::exit(2); }
   }
